@@ -14,7 +14,7 @@ poll in which the `FileWriter` is constructed):
 | step        | code                                                                                   |
 |-------------|----------------------------------------------------------------------------------------|
 | `probe p`   | `complete_multipart_upload`, validation loop: `fs::metadata(part file)` — missing → `InvalidPart`; nothing is changed |
-| `sizes ok`  | `complete_multipart_upload`: the size rule over the listed parts (`EntityTooSmall`); nothing is changed. (9bdb75f: after it the bucket must still exist — else `NoSuchBucket`, nothing is changed and no file is created; as for the bucket check of `put_object`, 1d0f501, the programs below are those of a request whose bucket exists) |
+| `sizes ok`  | `complete_multipart_upload`: the size rule over the listed parts (`EntityTooSmall`); nothing is changed. (b29f222: after it the bucket must still exist — else `NoSuchBucket`, nothing is changed and no file is created; as for the bucket check of `put_object`, 1d0f501, the programs below are those of a request whose bucket exists) |
 | `create`    | `prepare_file_write` (156124b: no longer `async`): `tmp_file_counter.fetch_add(1)`, `std::fs::File::create(tmp)`, `FileWriter { clean_tmp: true }` constructed — no `await` in between, hence no point at which the request future can be dropped: the file never exists without the guard whose `Drop` removes it. (Before, `tokio::fs::File::create(tmp).await` ran on the blocking pool and the `FileWriter` was constructed only after the await returned — a separate step `adopt`; a future dropped in between left the file: `tmp-leftover:drop-at-create`.) |
 | `frame f`   | `copy_bytes`: one item of the body stream; `Err` ends the call; `Ok` is appended          |
 | `part p`    | `complete_multipart_upload`, after the validation: open the part file (missing → error), `tokio::io::copy` into the temporary file |
